@@ -10,7 +10,7 @@ ids="$@"; [ -z "$ids" ] && ids=$(cd "$V/seeded" && ls -d C*-* 2>/dev/null)
 for id in $ids; do
   cd "$W" && git checkout -q -- . && git apply "$V/seeded/$id/patch.diff" || { echo "$id PATCH-FAILED"; continue; }
   out="$V/build/seedtest/$id.txt"
-  (cd "$V" && VP_REPO=$W VERIF_BUILD="$V/build/seedbuild" VERIF_VACUITY=0 python3 framework/check.py all > "$out" 2>&1)
+  (cd "$V" && VP_REPO=$W VERIF_BUILD="${SEED_BUILD:-$V/build/seedbuild}" VERIF_VACUITY=0 python3 framework/check.py all > "$out" 2>&1)
   viol=$(grep -o "VIOLATION property=C[0-9]*" "$out" | sort -u | sed 's/VIOLATION property=//' | tr '\n' ' ')
   und=$(grep -o "^UNDECIDED[ :A-Z0-9]*" "$out" | sort -u | head -4 | tr '\n' ' ')
   echo "$id violations=[$viol] undecided=[$und]"
